@@ -34,12 +34,15 @@ type c14In struct {
 	// therefore advertise nothing; At = index in Mechs before which the child stands.
 	Foreign []c14Foreign `json:"foreign,omitempty"`
 	Outside []string     `json:"outside,omitempty"` // raw look-alike elements directly under <stream:features/>
-	Spell   int          `json:"spell,omitempty"`   // 1: the SASL elements are written with a prefix (same elements)
-	W       int          `json:"w,omitempty"`       // 0 Write ok, 1 Write returns an error, 2 Write returns (0, nil)
-	RKind   int          `json:"rkind,omitempty"`   // abstract reply kind: 0 success 1 failure 2 other packet 3 read error
-	Reply   string       `json:"reply,omitempty"`   // concrete bytes the server sends (ASCII)
-	Reason  string       `json:"reason,omitempty"`  // failure condition (goes to the model, which ignores it)
-	ReplyID string       `json:"reply_id,omitempty"`
+	// Second: a SECOND <mechanisms xmlns='urn:ietf:params:xml:ns:xmpp-sasl'/> element in the same features
+	// element, after the first (nil: none). Its mechanisms are advertised like those of the first.
+	Second  []string `json:"second,omitempty"`
+	Spell   int      `json:"spell,omitempty"`  // 1: the SASL elements are written with a prefix (same elements)
+	W       int      `json:"w,omitempty"`      // 0 Write ok, 1 Write returns an error, 2 Write returns (0, nil)
+	RKind   int      `json:"rkind,omitempty"`  // abstract reply kind: 0 success 1 failure 2 other packet 3 read error
+	Reply   string   `json:"reply,omitempty"`  // concrete bytes the server sends (ASCII)
+	Reason  string   `json:"reason,omitempty"` // failure condition (goes to the model, which ignores it)
+	ReplyID string   `json:"reply_id,omitempty"`
 	// codec
 	Data []byte `json:"data,omitempty"`
 	Text []byte `json:"text,omitempty"`
@@ -387,6 +390,18 @@ func (c14) Gen(r *rand.Rand, tier string) []interface{} {
 			out = append(out, x, y, z)
 		}
 	}
+	// two SASL lists in one features element: the mechanisms of both are advertised
+	for kind, m := range []string{"PLAIN", "X-OAUTH2"} {
+		a := mk(kind, "alice", "s3cret", []string{"SCRAM-SHA-1"}, 0, c14Replies[0])
+		a.Second = []string{"ANONYMOUS", m}
+		b := mk(kind, "alice", "s3cret", []string{"SCRAM-SHA-1"}, 0, c14Replies[0])
+		b.Second = []string{"ANONYMOUS"}
+		c := mk(kind, "alice", "s3cret", []string{}, 0, c14Replies[0])
+		c.NoElem = true
+		c.Second = []string{m}
+		c.Outside = c14OutsidePool[:3]
+		out = append(out, a, b, c)
+	}
 	for i := 0; i < n; i++ {
 		u, _ := c14Bytes(r)
 		s, _ := c14Bytes(r)
@@ -419,6 +434,11 @@ func (c14) Gen(r *rand.Rand, tier string) []interface{} {
 		}
 		if r.Intn(8) == 0 {
 			in.Spell = 1
+		}
+		if r.Intn(12) == 0 {
+			if sec := c14Mechs(r); len(sec) > 0 { // (an empty list would not survive the JSON round trip of a replay)
+				in.Second = sec
+			}
 		}
 		out = append(out, in)
 	}
@@ -494,6 +514,15 @@ func c14FeaturesXML(in c14In) []byte {
 		if i%2 == 1 {
 			b.WriteString(o)
 		}
+	}
+	if in.Second != nil {
+		b.WriteString("<mechanisms xmlns='" + c14NSSASL + "'>")
+		for _, m := range in.Second {
+			b.WriteString("<mechanism>")
+			xml.EscapeText(&b, []byte(m))
+			b.WriteString("</mechanism>")
+		}
+		b.WriteString("</mechanisms>")
 	}
 	b.WriteString("<bind xmlns='urn:ietf:params:xml:ns:xmpp-bind'/></stream:features>")
 	return b.Bytes()
@@ -591,13 +620,84 @@ func (c14) Input(inp interface{}) Sx {
 	if in.Mode == "codec" {
 		return L(Z(1), SBytes(string(in.Data)), SBytes(string(in.Text)))
 	}
+	// The model is given ALL the children of the features element, as an independent XML reader (canon.go) sees
+	// the bytes the library decodes: which of them advertise a mechanism is the model's business (advertised_in).
+	nodes, ok := c14Nodes(c14FeaturesXML(in))
+	reply := L(Zi(in.RKind), SBytes(in.Reason))
+	if ns, local, named := c14ReplyName(in.Reply); named {
+		// the answer starts with a complete, well-formed element: what kind of reply that is, is the model's
+		// business too (Model/Parser.v's classification of the expanded name)
+		reply = L(Zi(in.RKind), SBytes(in.Reason), SBytes(ns), SBytes(local))
+	}
+	if ok {
+		return L(Z(2), Zi(in.Kind), SBytes(string(in.User)), SBytes(string(in.Secret)), LS(nodes), Zi(in.W), reply)
+	}
 	cs := c14Children(in)
 	ms := make([]Sx, len(cs))
 	for i, c := range cs {
 		ms[i] = L(SBytes(c.NS), SBytes(c.Local), SBytes(c.Text))
 	}
-	return L(Z(0), Zi(in.Kind), SBytes(string(in.User)), SBytes(string(in.Secret)), LS(ms), Zi(in.W),
-		L(Zi(in.RKind), SBytes(in.Reason)))
+	return L(Z(0), Zi(in.Kind), SBytes(string(in.User)), SBytes(string(in.Secret)), LS(ms), Zi(in.W), reply)
+}
+
+// c14Nodes: the element children of the features element, each as (namespace local ((namespace local text) ...)):
+// its own element children with their direct character data.
+func c14Nodes(features []byte) ([]Sx, bool) {
+	top, err := parseCanon(features)
+	if err != nil || len(top) != 1 {
+		return nil, false
+	}
+	var nodes []Sx
+	for _, n := range top[0].Kids {
+		if n.Name.Local == "" {
+			continue
+		}
+		var kids []Sx
+		for _, k := range n.Kids {
+			if k.Name.Local == "" {
+				continue
+			}
+			text := ""
+			for _, t := range k.Kids {
+				if t.Name.Local == "" {
+					text += t.Text
+				}
+			}
+			kids = append(kids, L(SBytes(k.Name.Space), SBytes(k.Name.Local), SBytes(text)))
+		}
+		nodes = append(nodes, L(SBytes(n.Name.Space), SBytes(n.Name.Local), LS(kids)))
+	}
+	return nodes, true
+}
+
+// c14ReplyName: the expanded name of the element the server's answer starts with, when that element is complete and
+// well-formed (inside the stream the client has open: default namespace jabber:client, prefix stream bound).
+func c14ReplyName(wire string) (ns, local string, named bool) {
+	d := xml.NewDecoder(strings.NewReader(c14Root + wire))
+	first := true
+	for {
+		tok, err := d.Token()
+		if err != nil {
+			return "", "", false
+		}
+		switch t := tok.(type) {
+		case xml.StartElement:
+			if first { // the stream header
+				first = false
+				continue
+			}
+			if err := d.Skip(); err != nil {
+				return "", "", false
+			}
+			return t.Name.Space, t.Name.Local, true
+		case xml.EndElement:
+			return "", "", false
+		case xml.CharData:
+			if !first && strings.TrimSpace(string(t)) != "" {
+				return "", "", false
+			}
+		}
+	}
 }
 
 // Direct oracle: the property's own clauses on the observation, no model.
@@ -618,8 +718,10 @@ func (c14) Oracle(inp interface{}, obs Sx) (string, string) {
 	if in.Kind == 1 {
 		credMech = "X-OAUTH2"
 	}
+	// advertised: the mechanisms of every SASL <mechanisms/> element of the features (the scenario's own lists)
+	advertisedMechs := append(append([]string{}, in.Mechs...), in.Second...)
 	common := false
-	for _, m := range in.Mechs {
+	for _, m := range advertisedMechs {
 		if m == credMech {
 			common = true
 		}
@@ -632,7 +734,7 @@ func (c14) Oracle(inp interface{}, obs Sx) (string, string) {
 					sig, extra = "foreign-mechanism-used", fmt.Sprintf(" (a <mechanism xmlns=%q>%s</mechanism> child, which is not a SASL mechanism, was taken for one)", f.NS, f.Text)
 				}
 			}
-			return fmt.Sprintf("server offers %q, credential supports %s: nothing may be sent, but %d write(s): %s%s", in.Mechs, credMech, nwrites, elems[0].String(), extra), sig
+			return fmt.Sprintf("server offers %q, credential supports %s: nothing may be sent, but %d write(s): %s%s", advertisedMechs, credMech, nwrites, elems[0].String(), extra), sig
 		}
 		if res != 1 {
 			return fmt.Sprintf("server offers %q, credential supports %s: expected a permanent error, got result %d", in.Mechs, credMech, res), "no-common-mech-error"
@@ -653,7 +755,7 @@ func (c14) Oracle(inp interface{}, obs Sx) (string, string) {
 		return fmt.Sprintf("mechanism %q is not the credential's %s", mech, credMech), "mechanism-credential"
 	}
 	offered := false
-	for _, m := range in.Mechs {
+	for _, m := range advertisedMechs {
 		offered = offered || m == mech
 	}
 	if !offered {
